@@ -125,7 +125,8 @@ def oracle(c):
     # when dropping the incomplete rows removes a level of a categorical variable altogether, the two
     # runs legitimately have different columns: no verdict
     for v in used:
-        if df[v].dtype == object or str(df[v].dtype) == "category":
+        import pandas as pd
+        if not pd.api.types.is_numeric_dtype(df[v]):
             if set(df[v].dropna().astype(str)) != set(complete_df[v].dropna().astype(str)):
                 return None
     if na == "drop":
